@@ -2,10 +2,22 @@ import JPV.Tables.Common
 namespace JPV.Tables
 open JPV JPV.Impl
 
-/-- `PRECEDENCES.get(kind, PRECEDENCE_LOWEST)` of the source, for every token kind of the model -/
+/-- The parser only ever COMPARES precedences (`PRECEDENCES.get(kind, PRECEDENCE_LOWEST) < precedence`, with the five
+constants as the other comparands), so what the model has to agree with is their ORDER, not their numbers (a harmless
+renumbering of the constants used to break this obligation with no failing input to show).  For every two comparands
+— the precedence of any token kind of the model, or one of the five constants — the model's values compare exactly as
+the source's. -/
+def modelVals : List (Int × Int) :=
+  match tableK Generated.precedences with
+  | none => [((0 : Int), 1)]   -- unreadable table: an entry that cannot be order-isomorphic with itself below
+  | some t =>
+    allKinds.map (fun k => ((Impl.precedence k : Int), (lookupK k t).getD (constOf "PRECEDENCE_LOWEST"))) ++
+    [((Impl.precLowest : Int), constOf "PRECEDENCE_LOWEST"), ((Impl.precOr : Int), constOf "PRECEDENCE_LOGICAL_OR"),
+     ((Impl.precAnd : Int), constOf "PRECEDENCE_LOGICAL_AND"), ((Impl.precRelational : Int), constOf "PRECEDENCE_RELATIONAL"),
+     ((Impl.precPrefix : Int), constOf "PRECEDENCE_PREFIX")]
+
 theorem precedences_model :
-    (match tableK Generated.precedences with
-     | some t => allKinds.all (fun k => (Impl.precedence k : Int) = (lookupK k t).getD (constOf "PRECEDENCE_LOWEST"))
-     | none => false) = true := by decide +kernel
+    ((tableK Generated.precedences).isSome &&
+     modelVals.all (fun a => modelVals.all (fun b => compare a.1 b.1 == compare a.2 b.2))) = true := by decide +kernel
 
 end JPV.Tables
